@@ -596,8 +596,8 @@ impl Interp {
     /// The survivor's cleanup: until no foreign node is listed (or 1.5 s have passed): list, run
     /// try_remove_stale_resources on every Dead one.  A dead node whose details file is gone is first
     /// cleaned through the public API; when that reports ResourcesAlreadyCleanedUp although the node is still
-    /// listed (the public API then works on Config::global_config() instead of the listing's config) the
-    /// survivor says so (`fallback:y`) and continues through the hidden entry point that takes the details
+    /// listed, or fails (the public API then works on Config::global_config() -- /tmp/iceoryx2, default prefix --
+    /// instead of the listing's config), the survivor says so (`fallback:y`) and continues through the hidden entry point that takes the details
     /// explicitly, so that the rest of the cleanup is still exercised.
     fn cleanup(&mut self) -> String {
         let t0 = std::time::Instant::now();
@@ -644,7 +644,7 @@ impl Interp {
                             Err(e) => compact(&e),
                         }
                     };
-                    if !has_details && r == "ResourcesAlreadyCleanedUp" && !stuck_public.contains(&id) {
+                    if !has_details && r != "ok" && !stuck_public.contains(&id) {
                         stuck_public.push(id.clone());
                     }
                     if !results.contains(&r) {
